@@ -275,7 +275,7 @@ func c01Scenarios(r *hx.Run) []hx.Scenario {
 	}
 	for _, when := range []string{"dial", "handshake"} {
 		out = append(out, hx.Scenario{Name: "c01:race:unregister-during-" + when, Body: raceBody("unregister", when, true, true), Bounds: simrt.B(pb, 0, 0),
-			Cfg: simrt.Config{MaxSteps: 400000, BranchAfterMark: true, BranchOnly: []string{"user"}}})
+			Cfg: simrt.Config{MaxSteps: 400000, BranchAfterMark: true, BranchOnly: []string{"user", "prepareConnectionInitation", "http.serve"}}})
 	}
 	return out
 }
@@ -330,11 +330,12 @@ func c01Main(r *hx.Run) {
 	sum := hx.GExploreAll(r, ms)
 	viol := hx.GConfirm(sum, ms)
 	cov := sum.Coverage()
+	r.EnsureBudget(60 * time.Second)
 	hx.SetWorkerMode("s")
 	scens := c01Scenarios(r)
 	ss := hx.ExploreAll(r, scens, false, 0)
 	for k := range ss.Found {
-		if !strings.HasPrefix(k, "C01|") && !strings.HasPrefix(k, "panic|") && !strings.HasPrefix(k, "engine|") {
+		if !strings.HasPrefix(k, "C01|") && !strings.HasPrefix(k, "panic|") && !hx.KeptKey(k) {
 			delete(ss.Found, k)
 		}
 	}
